@@ -257,9 +257,20 @@ def _check(task):
         dmp = md.dipole_moments(t, np.array(case["charges"], dtype=float))[0]
         if np.abs(dmp - np.array(exp["dipole_p"]) * G).max() > 3e-4 * (1 + np.abs(dmp).max()):
             probs.append("dipole_moments (periodic) differs from sum q (mic(r_first - r_0) + mic(r - r_first)): got %s expected %s" % (np.round(dmp, 4).tolist(), (np.array(exp["dipole_p"]) * G).round(4).tolist()))
-    dens = md.density(t, masses=w / 100.0)[0]
+    # one mass vector object handed to several descriptors in turn (the caller's array: a descriptor may read it, nothing more)
+    mw = w / 100.0
+    xyz_before = t.xyz.copy()
+    rg_mw = md.compute_rg(t, masses=mw)[0]
+    cm = (mw[:, None] * P).sum(0) / mw.sum()
+    if abs(rg_mw ** 2 - float((mw * ((P - cm) ** 2).sum(1)).sum() / mw.sum()) * G * G) > 1e-4 * (1 + rg_mw ** 2):
+        probs.append("compute_rg(element masses) differs from the mass-weighted definition")
+    dens = md.density(t, masses=mw)[0]
     if abs(dens - exp["mass"] / 100.0 / (exp["vol"] * G ** 3) * 1.6605387823355087) > 1e-4 * dens:
-        probs.append("density differs from mass / volume")
+        probs.append("density differs from mass / volume (mass vector used for compute_rg before)")
+    if not np.array_equal(mw, w / 100.0):
+        probs.append("a descriptor modified the mass vector it was given")
+    if not np.array_equal(t.xyz, xyz_before):
+        probs.append("a descriptor modified the coordinates of the trajectory it was given")
     return (probs, overflow) if (probs or overflow) else None
 
 
